@@ -25,6 +25,7 @@
 (* ErrShuttingDown the moment quit is closed (Result selects on quit), and *)
 (* anything delivered after that is not seen by anybody.                   *)
 (*                                                                         *)
+(* Line numbers are those of utxoscanner.go at the commit that fixed #14a.  *)
 (* Code-version switches (the spec follows the code):                      *)
 (*   Fix7    the exits taken after requests were dequeued at a height      *)
 (*           (GetBlock error, quit) also answer those requests              *)
@@ -99,7 +100,7 @@ LoopTop(P, NB, D) ==
       ELSE IF quit THEN [z EXCEPT !.pc = PC_EXIT, !.pq = {}]   \* Stop :166 pops what is left
       ELSE [z EXCEPT !.pc = PC_BEST0, !.h0 = MinStart(P2)]
 
-\* reporter.FailRemaining(x) :82 and return; NR = requests dequeued at this
+\* reporter.FailRemaining(x) (batch_spend_reporter.go :87) and return; NR = requests dequeued at this
 \* height that are not in the reporter yet.
 FailAll(x, P, NB, RQ, NR, D) ==
   LET D2 == [r \in Ids |-> IF r \in RQ \/ (Fix7 /\ r \in NR) THEN x ELSE <<>>]
@@ -122,11 +123,11 @@ TrueMatch(hh, RQ) ==
      \/ \E p \in 1..Len(Chain[hh]) : \E q \in 1..Len(Chain[hh][p].ins) :
            Chain[hh][p].ins[q] = OpOf(r)
 
-\* reporter.ProcessBlock :115 for block hh with the freshly dequeued NR.
+\* reporter.ProcessBlock (batch_spend_reporter.go :120) for block hh with the freshly dequeued NR.
 Process(hh, NR, RQ, ITX) ==
   LET blk  == Chain[hh]
-      RQ1  == RQ \cup NR                                          \* addNewRequests :144
-      ini(n) == IF Creates(blk, OpOf(n)) THEN hh ELSE 0           \* findInitialTransactions :169
+      RQ1  == RQ \cup NR                                          \* addNewRequests :149
+      ini(n) == IF Creates(blk, OpOf(n)) THEN hh ELSE 0           \* findInitialTransactions :174
       ITX1 == [r \in Ids |->
                  IF r \in NR THEN ini(r)
                  ELSE IF ~Fix14a /\ r \in RQ1 /\ \E n \in NR : OpOf(n) = OpOf(r)
@@ -136,14 +137,14 @@ Process(hh, NR, RQ, ITX) ==
                     q <= Len(blk[p].ins) /\ blk[p].ins[q] = OpOf(r) }
       first(r) == CHOOSE x \in pos(r) : \A y \in pos(r) :
                     x[1] < y[1] \/ (x[1] = y[1] /\ x[2] <= y[2])
-      spent == { r \in RQ1 : pos(r) # {} }                        \* notifySpends :251
+      spent == { r \in RQ1 : pos(r) # {} }                        \* notifySpends :256
   IN  [rq  |-> RQ1 \ spent,
        itx |-> [r \in Ids |-> IF r \in spent THEN -1 ELSE ITX1[r]],
        d   |-> [r \in Ids |-> IF r \in spent
                               THEN <<K_SPEND, hh, blk[first(r)[1]].id, first(r)[2] - 1>>
                               ELSE <<>>]]
 
-\* reporter.NotifyUnspentAndUnfound :60
+\* reporter.NotifyUnspentAndUnfound (batch_spend_reporter.go :61)
 Unspent(RQ, ITX) ==
   [r \in Ids |-> IF r \notin RQ THEN <<>>
                  ELSE IF ITX[r] > 0 THEN <<K_UTXO, ITX[r], reqs[r].tx, reqs[r].idx>>
@@ -222,7 +223,7 @@ BatchStart(res) ==
         /\ Commit(LoopTop(pq, nextB, NoD))                   \* plain `return err`
   /\ Finish(Act("BatchStart", 0, best, 0, res))
 
-\* GetBlockHash :314, then Dequeue :321 (dequeueAtHeight :258), fetch decision, QuitCheck :349
+\* GetBlockHash :314, then Dequeue :321 (dequeueAtHeight :258), fetch decision, QuitCheck :351
 GetHash(res) ==
   /\ pc = PC_HASH
   /\ \/ res = "fail" /\ Fail /\ nfail' = nfail + 1
@@ -241,7 +242,7 @@ GetHash(res) ==
                             nextB |-> NB2, newR |-> NR, rq |-> rq, itx |-> itx, d |-> NoD])
   /\ Finish(Act("GetHash", h, 0, 0, res))
 
-\* BlockFilterMatches :330 with the reporter's watch list, Progress :338, QuitCheck :349
+\* BlockFilterMatches :330 with the reporter's watch list, Progress :338, QuitCheck :351
 FilterMatch(res) ==
   /\ pc = PC_FILTER
   /\ \/ res = "fail" /\ Fail /\ nfail' = nfail + 1
@@ -254,7 +255,7 @@ FilterMatch(res) ==
                         nextB |-> nextB, newR |-> {}, rq |-> rq, itx |-> itx, d |-> NoD])
   /\ Finish(Act("FilterMatch", h, 0, 0, res))
 
-\* GetBlock :357, QuitCheck :363, Process :371, Progress :372
+\* GetBlock :360, QuitCheck :367, Process :376, Progress :377
 GetBlock(res) ==
   /\ pc = PC_BLOCK
   /\ \/ res = "fail" /\ Fail /\ nfail' = nfail + 1
@@ -265,8 +266,8 @@ GetBlock(res) ==
                 IN  Commit(Enter(h + 1, endH, pq, nextB, p.rq, p.itx, p.d))
   /\ Finish(Act("GetBlock", h, 0, 0, res))
 
-\* BestSnapshot :379 after the last height: more blocks => keep scanning,
-\* else NotifyUnspent :392 and return.
+\* BestSnapshot :384 after the last height: more blocks => keep scanning,
+\* else NotifyUnspent :397 and return.
 TailCheck(res) ==
   /\ pc = PC_TAIL
   /\ \/ /\ res = "fail" /\ Fail /\ nfail' = nfail + 1
